@@ -71,7 +71,7 @@ CLAIMED = {
    "exhaustive enumeration of FK graphs x table-role assignments + rapid PBT on larger graphs; oracle = reference catalogue replaying the planned SQL text under the database's FK rules",
    "Every directed FK graph with self loops over n<=3 (quick) / n<=4 (thorough) tables x every assignment of tables to kept/created/dropped x MySQL and PostgreSQL planners x plan modes x FK naming (per edge: a re-pointed key is drop+add; per table slot: it keeps its name and the differ reports ModifyForeignKey) is diffed (DefaultDiff.SchemaDiff) and planned (DefaultPlan.PlanChanges); "
    "random graphs over 5-8 tables with independent current/desired edge sets and two-column FKs on top. A reference catalogue parses each planned statement (CREATE TABLE .. REFERENCES, ADD CONSTRAINT, DROP FOREIGN KEY/CONSTRAINT, DROP TABLE) and enforces: "
-   "the referenced table exists when an FK is declared (self references allowed), a table is dropped only when no other table references it, nothing is created or dropped twice, and the final catalogue (tables + FK edges) equals the desired one; PlanChanges must return without error within a watchdog.",
+   "the referenced table exists when an FK is declared (self references allowed), a table is dropped only when no other table references it, nothing is created or dropped twice, and the final catalogue (tables + FK edges) equals the desired one; PlanChanges must return without error within a watchdog, and planning the same change set a second time must give the same plan.",
    "No MySQL/PostgreSQL engine is available offline: the reference catalogue stands in for the server's FK rules. Index statements are ignored (an FK's dependency on a unique index of the referenced table is outside this property).",
    "4/C04"),
  "C17": ("exploration",
@@ -101,7 +101,7 @@ CLAIMED = {
  "C15": ("exploration",
    "exhaustive type-grid enumeration (format/parse fixpoint + HCL conversion round trip) + rapid PBT over schemas (round-trip oracle: empty diffs both ways, byte-identical re-marshal)",
    "(a) every TypeSpec of the MySQL, PostgreSQL and SQLite type registries x a parameter grid (absent / zero / typical values per attribute, unsigned, enum/set value lists) is instantiated through the registry, formatted, parsed and formatted again (fixpoint) and sent through TypeRegistry.Convert/Type, the path MarshalHCL/EvalHCL use; the SQL form must come back unchanged. "
-   "(b) per-dialect feature-rich schemas plus an `alltypes` table over the formatted grid types (random null/default/comment) and a generated `features` table (composite/DESC/prefix key parts, index parts with DESC/prefix/expressions, index types, predicates, INCLUDE, comments, checks, FK actions, MySQL column and table character sets) are marshalled with MarshalHCL, evaluated with EvalHCLBytes, diffed in both directions (DiffNormalized: must be empty), compared directly on the effective character set / collation of every table and string column (the differ cannot see a value lost together with all its ancestors'), and marshalled again (bytes must be identical).",
+   "(b) per-dialect feature-rich schemas plus an `alltypes` table over the formatted grid types (random null/default/comment) and a generated `features` table (composite/DESC/prefix key parts, index parts with DESC/prefix/expressions, index types, predicates, INCLUDE, comments, checks, FK actions, MySQL column and table character sets) are marshalled with MarshalHCL, evaluated with EvalHCLBytes, diffed in both directions (DiffNormalized: must be empty), compared directly on the effective character set / collation of every table and string column (the differ cannot see a value lost together with all its ancestors'), and marshalled again (bytes must be identical). PostgreSQL time types in the inspector's long spelling and a hand-written catalogue of raw SQL types per dialect (not derived from the registered specs) go through the same round trip.",
    "Schema graphs are built with the exported builder API from ParseType'd types (the form an inspector yields), not inspected from servers. MySQL table-level AUTO_INCREMENT start values are excluded (not exported by design). A character set stated on an element although it equals the inherited one is removed before the comparison (Atlas writes it only when it differs from the parent's, by design). PostgreSQL/SQLite primary keys carry no per-part options (not representable in their HCL).",
    "4/C15"),
  "C10": ("fault_enumeration",
